@@ -167,13 +167,19 @@ class RegistryModel:
             self.nodes[n]["children"][c]["values"][t] = p
         elif cmd == INTERNAL:
             if t == I_BATTERY_LEVEL:
-                self.nodes[n]["battery"] = round(float(p))
+                try:
+                    self.nodes[n]["battery"] = round(float(p))
+                except (ValueError, OverflowError):
+                    self.nodes[n]["battery"] = UNSPEC  # an implementation that accepted this has no specified value
             elif t == I_SKETCH_NAME:
                 self.nodes[n]["sketch_name"] = p
             elif t == I_SKETCH_VERSION:
                 self.nodes[n]["sketch_version"] = p
             elif t == I_HEARTBEAT_RESPONSE and is2x(version):
-                self.nodes[n]["heartbeat"] = int(p)
+                try:
+                    self.nodes[n]["heartbeat"] = int(p)
+                except ValueError:
+                    self.nodes[n]["heartbeat"] = UNSPEC
 
     def placeholder(self, nid: int) -> None:
         self.nodes[nid] = self.fresh()
